@@ -3,6 +3,7 @@
 //! well-behaved client must still be served and the serving future must still be pending.
 #![allow(dead_code)]
 
+use std::sync::Arc;
 use std::io::Write;
 use std::time::Duration;
 
@@ -258,4 +259,125 @@ impl Engine for SockEngine {
 pub fn strategy() -> impl proptest::strategy::Strategy<Value = SockCase> {
     use proptest::prelude::*;
     (0u8..2, 0u8..2, proptest::collection::vec((0u8..6, any::<u16>()), 1..6)).prop_map(|(kind, proto, faults)| SockCase { kind, proto, faults })
+}
+
+// ------------------------------------------------------------------------------------------------
+// accept loops written against the duplex listener's `Stream` interface (`incoming.next().await`)
+
+#[derive(Clone, Debug, Serialize, Deserialize, PartialEq)]
+pub struct DupStreamCase {
+    /// 0 good client (connect, one byte echoed), 1 connect polled once and dropped, 2 connect then drop
+    /// the stream at once, 3 connect with a 0-byte pipe and go away
+    pub ops: Vec<u8>,
+}
+
+pub struct DupStreamEngine;
+
+impl Engine for DupStreamEngine {
+    type Case = DupStreamCase;
+    fn name(&self) -> &'static str {
+        "dupstream"
+    }
+    fn run_case(&self, c: &DupStreamCase) -> CaseReport {
+        use futures_util::StreamExt;
+        use tokio::io::{AsyncReadExt, AsyncWriteExt};
+        let mut rep = CaseReport::default();
+        let rt = tokio::runtime::Builder::new_current_thread().enable_time().start_paused(true).build().unwrap();
+        let ops = c.ops.clone();
+        let res: Result<Option<String>, ()> = std::panic::catch_unwind(std::panic::AssertUnwindSafe(|| {
+            rt.block_on(async move {
+                let (client, mut incoming) = hyperdriver::stream::duplex::pair();
+                let ended = Arc::new(std::sync::atomic::AtomicBool::new(false));
+                let ended2 = ended.clone();
+                // the accept loop every example of a Stream-based listener uses
+                let server = tokio::spawn(async move {
+                    while let Some(conn) = incoming.next().await {
+                        if let Ok(mut s) = conn {
+                            tokio::spawn(async move {
+                                let mut b = [0u8; 1];
+                                if let Ok(1) = s.read(&mut b).await {
+                                    let _ = s.write_all(&[b[0].wrapping_add(1)]).await;
+                                }
+                            });
+                        }
+                    }
+                    ended2.store(true, std::sync::atomic::Ordering::SeqCst);
+                });
+                async fn good(client: &hyperdriver::stream::duplex::DuplexClient) -> Result<(), String> {
+                    let fut = async {
+                        let mut s = client.connect(64).await.map_err(|e| format!("connect: {e}"))?;
+                        s.write_all(&[41]).await.map_err(|e| format!("write: {e}"))?;
+                        let mut b = [0u8; 1];
+                        s.read_exact(&mut b).await.map_err(|e| format!("read: {e}"))?;
+                        if b[0] == 42 {
+                            Ok(())
+                        } else {
+                            Err(format!("echoed {}", b[0]))
+                        }
+                    };
+                    match tokio::time::timeout(Duration::from_secs(5), fut).await {
+                        Ok(r) => r,
+                        Err(_) => Err("no answer within 5 virtual seconds".into()),
+                    }
+                }
+                for (i, op) in ops.iter().enumerate() {
+                    match op % 4 {
+                        0 => {
+                            if let Err(e) = good(&client).await {
+                                return Some(format!("well-behaved client #{i} was not served: {e} (listener stream ended: {})", ended.load(std::sync::atomic::Ordering::SeqCst)));
+                            }
+                        }
+                        1 => {
+                            let fut = client.connect(64);
+                            tokio::pin!(fut);
+                            let _ = futures_util::poll!(fut.as_mut());
+                        }
+                        2 => {
+                            if let Ok(s) = client.connect(64).await {
+                                drop(s);
+                            }
+                        }
+                        _ => {
+                            let _ = tokio::time::timeout(Duration::from_millis(2), client.connect(0)).await;
+                        }
+                    }
+                    tokio::task::yield_now().await;
+                }
+                let out = match good(&client).await {
+                    Ok(()) => None,
+                    Err(e) => Some(format!("after the faults {ops:?} a well-behaved client was not served: {e} (listener stream ended although the client handle is alive: {})", ended.load(std::sync::atomic::Ordering::SeqCst))),
+                };
+                server.abort();
+                out
+            })
+        }))
+        .map_err(|_| ());
+        drop(rt);
+        for (loc, msg) in crate::panichook::take_all() {
+            if crate::panichook::in_library(&loc) {
+                rep.violate("C09/duplex-stream-panic-in-library", format!("panic at {loc}: {msg}"));
+            }
+        }
+        match res {
+            Ok(Some(msg)) => rep.violate("C09/duplex-stream-listener-stopped-after-connection-fault", msg),
+            Ok(None) => {}
+            Err(()) => {
+                if rep.violations.is_empty() {
+                    rep.internal_error = Some(format!("harness panic at {}: {}", crate::panichook::last_location(), crate::panichook::last_message()));
+                }
+            }
+        }
+        rep.class("duplex-stream-accept-loop");
+        if c.ops.iter().any(|o| o % 4 == 1) {
+            rep.class("duplex-stream-cancelled-connect");
+        }
+        rep.nontrivial = c.ops.iter().any(|o| o % 4 != 0);
+        rep.total_ops = c.ops.len() as u64;
+        rep
+    }
+}
+
+pub fn dupstream_strategy() -> impl proptest::strategy::Strategy<Value = DupStreamCase> {
+    use proptest::prelude::*;
+    proptest::collection::vec(prop_oneof![2 => Just(0u8), 3 => Just(1u8), 1 => Just(2u8), 1 => Just(3u8)], 1..8).prop_map(|ops| DupStreamCase { ops })
 }
